@@ -133,7 +133,7 @@ impl GitConfig {
 }
 
 // ---------------------------------------------------------------- options/set.rs: --no-gitconfig
-//@ type src/cli.rs Opt keep=features,no_gitconfig,minus_style,minus_emph_style,raw,color_only,diff_highlight,diff_so_fancy,hyperlinks,line_numbers,navigate,side_by_side noderive
+//@ type src/cli.rs Opt keep=features,no_gitconfig,minus_style,minus_emph_style,raw,color_only,diff_highlight,diff_so_fancy,hyperlinks,line_numbers,navigate,side_by_side,file_decoration_style,commit_decoration_style,hunk_header_decoration_style noderive
 
 //@ region src/options/set.rs set_options
 //@sig pub fn set_options_no_gitconfig_prologue(opt: &mut cli::Opt, git_config: &mut Option<GitConfig>)
@@ -141,6 +141,15 @@ impl GitConfig {
 //@until <<<opt.navigate = >>>
 //@| ensures old(opt).no_gitconfig ==> (*final(git_config) matches Some(g) ==> !g.enabled),  // @C13:no.gitconfig.disables.every.gitconfig.lookup
 
+
+// ---------------------------------------------------------------- options/set.rs: the last word of set_options under --color-only
+//@ region src/options/set.rs set_options
+//@sig pub fn set_options_color_only_epilogue(opt: &mut cli::Opt)
+//@from <<<if opt.color_only>>>
+//@toblock
+//@| ensures old(opt).color_only ==> !final(opt).side_by_side && final(opt).file_decoration_style@ == "none"@ && final(opt).commit_decoration_style@ == "none"@ && final(opt).hunk_header_decoration_style@ == "none"@,  // @C02:under.color-only.there.is.no.side-by-side.layout.and.no.decoration.whatever.was.configured
+//@|         final(opt).color_only == old(opt).color_only,
+//@|         !old(opt).color_only ==> final(opt).side_by_side == old(opt).side_by_side && final(opt).file_decoration_style == old(opt).file_decoration_style && final(opt).commit_decoration_style == old(opt).commit_decoration_style && final(opt).hunk_header_decoration_style == old(opt).hunk_header_decoration_style,
 
 // ---------------------------------------------------------------- options/set.rs: a value given on the command line is never replaced
 pub mod clap {
